@@ -10,6 +10,9 @@ import GoZero.C04.Model
 namespace GoZero.C04
 namespace Spec
 
+/-- the property's timeout of a route: its own (`WithTimeout`) if positive, else the global one (ms → ns) -/
+def routeTimeout (own globalMs : Int) : Int := if own > 0 then own else globalMs * 1000000
+
 /-- what a client sees -/
 structure View where
   code : Nat
